@@ -17,6 +17,11 @@ CHECKS = {
         text="For ordered selects (plain and DISTINCT; limit, offset, both; limit()/fetch() API; parameter, expression and zero operands; literal and bound) on 8 dialect configurations (default, sqlite, postgresql, mysql, mssql >=2012 and <2012, oracle 12c and 11g), z3 proves that the re-parsed emitted statement returns exactly the rows offset < position <= offset+limit of the ordered (distinct) result for every 3-row (thorough: 4-row) table and every non-negative limit/offset, or returns a table on which they differ.",
         note="Trusted: vlib/sqlselect.py/sqlparse.py structure grammar, relational semantics of ROW_NUMBER/ROWNUM/DISTINCT/slices in props/C18.py, z3. Only SQLite-compatible emitted forms are executed for confirmation; MSSQL/Oracle/MySQL/PostgreSQL native clauses are trusted to mean what their documentation says. NULL ordering, WITH TIES, PERCENT, joins and GROUP BY are outside.",
         ref="DESIGN.md §4 C18"),
+    "C08": dict(engine=E1, category="other",
+        technique="symbolic execution (CrossHair proxies + z3) of the real LIKE-operator functions on a symbolic operand string and escape character, decoded by a reference LIKE ESCAPE decoder; path-exhaustive; sqlite3 replay through the public API",
+        text="For every operand string of length <=3 (thorough 4) over all of unicode and every escape character (default, %, _, /, arbitrary) the pattern produced by startswith/endswith/contains (+ i-/not_ variants) with autoescape=True is a well-formed LIKE pattern without live wildcards that decodes to exactly the operand; hence the rendered `x LIKE '%'||p||'%' ESCAPE e` matches exactly when the Python substring/prefix/suffix test holds. Every path is decided by z3; counterexamples are re-run on sqlite3 with case_sensitive_like.",
+        note="Trusted: reference decoder (standard ESCAPE semantics) in props/C08.py, CrossHair str model, z3. Case folding of the i-variants and non-SQLite LIKE dialects are outside.",
+        ref="DESIGN.md §4 C08"),
     "C19": dict(
         engine=E3, category="model_checking",
         technique="bounded model checking: util/topological.py interpreted from its AST over symbolic graphs with merged control flow, one z3 (QF_BV/SAT) validity query per obligation, unwinding assertions, counterexamples replayed on the real functions",
